@@ -144,9 +144,11 @@ def audit(prop):
 
 
 def leanchecker(prop):
+    """independent re-check of the compiled modules that hold this property's registered theorems"""
+    mods = sorted({v.get("module") or f"PlatypusModel.Props.{prop}" for v in obligations(prop).values()})
     lk = _lock()
     try:
-        p = subprocess.run(["lake", "env", "leanchecker", f"PlatypusModel.Props.{prop}"], cwd=LEAN,
+        p = subprocess.run(["lake", "env", "leanchecker"] + mods, cwd=LEAN,
                            capture_output=True, text=True, timeout=3000)
     finally:
         lk.close()
